@@ -1,10 +1,11 @@
 package main
 
 import (
-	webdav "github.com/emersion/go-webdav"
 	"encoding/hex"
 	"fmt"
+	webdav "github.com/emersion/go-webdav"
 	"net/http"
+	"net/http/httptest"
 	"strconv"
 	"strings"
 	"time"
@@ -67,7 +68,26 @@ func emitEtag(o *Out, s string) {
 	o.Emit("etag.rt", sxRunes(s, true), rt)
 	// through headers: the announced form of a tag, sent back in If-Match / If-None-Match, names that tag again
 	hdr := guard(func() string {
+		// (what the file server really sends for a backend holding this tag: PUT and GET must announce one form)
 		announced := internal.ETag(s).String()
+		fs := newMemFS()
+		fs.putTag = s
+		h := &webdav.Handler{FileSystem: fs}
+		var sent []string
+		for _, m := range []string{"PUT", "GET"} {
+			req := httptest.NewRequest(m, "http://example.com/f.txt", strings.NewReader("data"))
+			rec := httptest.NewRecorder()
+			h.ServeHTTP(rec, req)
+			if rec.Code/100 == 2 {
+				sent = append(sent, rec.Header().Get("ETag"))
+			}
+		}
+		if len(sent) == 2 && s != "" { // (the synthetic file system reads an empty tag as "pick one yourself")
+			if sent[0] != sent[1] {
+				return "put-and-get-announce-different-forms"
+			}
+			announced = sent[0]
+		}
 		got, err := webdav.ConditionalMatch(announced).ETag()
 		if err != nil {
 			return "err"
